@@ -7,7 +7,7 @@ from vf import gen, schema
 PROP = 'C17'
 ASPECTS = ['object-name', 'set-identifier', 'header-id', 'signed-int', 'channel-in-no-frame', 'channel-in-two-frames',
            'non-uniform-index', 'non-uniform-index-with-spacing', 'attr-units', 'channel-units', 'index-type', 'equipment-type', 'equipment-location',
-           'ident-attribute']
+           'ident-attribute', 'renamed-after-creation', 'header-id-reassigned', 'set-identifier-reassigned']
 PATTERNS = ['plain', 'nested', 'exception-at-build', 'exception-at-write', 'decorator', 'generator-abandoned',
             'interleaved-outside-file', 'assign-after-leaving', 'created-outside-assigned-inside', 'nested-decorators',
             'decorator-inside-with', 'with-inside-decorator', 'retry-inside', 'outside-then-inside', 'twice-outside']
@@ -23,7 +23,7 @@ META = {
                      + ['pattern-' + p for p in PATTERNS] + ['inside-raised', 'outside-warned', 'repeated-write-compared']},
     'assumptions': ['enumerated values are judged only for the values the generator itself chose from known-standard and '
                     'known-non-standard lists (no copy of the full RP66 units table is trusted)',
-                    'renames after construction and set names are outside C17\'s domain'],
+                    'set names are outside C17\'s domain (the statement lists objects, set identifier, header id)'],
 }
 META['required_obs']['thorough'] = META['required_obs']['quick']
 HC_RE = re.compile(r'[A-Z0-9_-]+')
@@ -118,6 +118,14 @@ def breach(sp, a, r):
         next(o for o in ops if o['op'] == 'equipment')['attrs']['eq_type'] = r.choice(['Gizmo', 'tool', 'TOOL'])
     elif a == 'equipment-location':
         next(o for o in ops if o['op'] == 'equipment')['attrs']['location'] = r.choice(['Moon', 'well', 'WELL'])
+    elif a == 'renamed-after-creation':
+        # a compliant object is given a non-compliant name AFTER it has been created
+        i = r.choice([k for k, o in enumerate(ops) if o['op'] in ('zone', 'equipment', 'axis', 'frame', 'channel', 'calibration_coefficient')])
+        ops.append({'op': 'setattr', 'target': i, 'field': 'name', 'value': r.choice(['lower case', 'Mixed', 'DOT.TED'])})
+    elif a == 'header-id-reassigned':
+        ops.append({'op': 'set_header', 'lf': 0, 'field': 'header_id', 'value': r.choice(['My header', 'x', 'HDR 1'])})
+    elif a == 'set-identifier-reassigned':
+        ops.append({'op': 'set_sul', 'field': 'set_identifier', 'value': r.choice(['Default Storage Set', 'lower', 'A.B'])})
     elif a == 'ident-attribute':
         which = r.choice(['axis', 'equipment', 'calibration_coefficient'])
         o = next(o for o in ops if o['op'] == which)
@@ -515,8 +523,10 @@ def run_case(case):
                 for asp, det in found:
                     vio.append({'prop': PROP, 'kind': 'restriction-breached-in-written-file', 'mech': 'written:' + asp,
                                 'detail': f'{label}: built and written inside the context, decoded file has {det}'})
+                alias = {'renamed-after-creation': 'object-name', 'header-id-reassigned': 'header-id',
+                         'set-identifier-reassigned': 'set-identifier'}
                 for asp in aspects:
-                    if not any(f[0] == asp for f in found):
+                    if not any(f[0] in (asp, alias.get(asp)) for f in found):
                         vio.append({'prop': PROP, 'kind': 'breach-not-raised', 'mech': 'not-raised:' + asp,
                                     'detail': f'{label}: neither raised inside the context nor visible in the decoded file'})
         else:
